@@ -463,6 +463,9 @@ class _FuncAnalysis:
 
     def elem_size(self, ptr_node):
         t = (ptr_node.get('ct') or '').strip()
+        for q in ('const', '__restrict', 'restrict', 'volatile'):
+            if t.endswith(q):
+                t = t[:-len(q)].rstrip()
         if t.endswith(']'):
             t = t[:t.rfind('[')].strip() + ' *'
         pointee = t[:-1].strip() if t.endswith('*') else t
@@ -471,6 +474,13 @@ class _FuncAnalysis:
             return 1
         if pointee.endswith('*'):
             return 8
+        if pointee.startswith('struct ') or pointee.startswith('union '):
+            try:
+                r = self.prog.record(pointee.split(' ', 1)[1])
+                if r and r.get('size'):
+                    return r['size']
+            except Exception:
+                pass
         return {'int': 4, 'unsigned int': 4, 'long': 8, 'unsigned long': 8, 'short': 2, 'unsigned short': 2,
                 'long long': 8, 'unsigned long long': 8}.get(pointee, 1)
 
@@ -685,6 +695,15 @@ class _FuncAnalysis:
         a = self.lin(dst, st)
         reg = self.region_of(dst, st)
         text = what
+        s0 = strip(dst)
+        if s0 is not None and s0.k == 'DeclRefExpr' and s0['ref'].get('kind') == 'parm' and nbytes is not None and \
+                nbytes.is_const() and not any(k2 != 'decl' for k2, _ in def_sites(self.func, s0['ref']['id'])):
+            es = self.elem_size(dst)
+            if es > 1 and 0 <= nbytes.c <= es:
+                # a never-modified parameter of type T* stands for (at least) one object of type T
+                self.oblige('write', node, text, True, '', how='%d bytes into the object of %d bytes a %s parameter points to' % (
+                    nbytes.c, es, (s0.get('ct') or '').strip()))
+                return
         if a is None or nbytes is None:
             self.oblige('write', node, text, False, 'cannot express the destination or the size of %s' % render(node)[:80])
             return
@@ -1098,7 +1117,23 @@ class _FuncAnalysis:
                 n = self.lin(args[si], st)
                 if name in ('getpwuid_r', 'getgrgid_r'):
                     pass
-                self.check_write(st, e, args[di], n, '%s(%s, %s)' % (name, render(args[di])[:30], render(args[si])[:30]))
+                text_ = '%s(%s, %s)' % (name, render(args[di])[:30], render(args[si])[:30])
+                szn = strip(args[si])
+                dd = decl_of(args[di])
+                whole_object = False
+                if szn is not None and szn.k == 'UnaryExprOrTypeTraitExpr' and szn.get('trait') in (None, 'sizeof') and dd is not None \
+                        and strip(args[di]).k == 'DeclRefExpr' and szn.ch:
+                    op = strip(szn.ch[0])
+                    if op is not None and ((op.k == 'UnaryOperator' and op.get('op') == '*') or
+                                           (op.k == 'ArraySubscriptExpr' and strip(op.ch[1]).get('v') == 0)) and \
+                            (decl_of(op.ch[0]) or {}).get('id') == dd['id'] and \
+                            not any(k2 != 'decl' for k2, _ in def_sites(self.func, dd['id'])):
+                        whole_object = True
+                if whole_object:
+                    # writer(p, sizeof(*p)) through a never-modified pointer: exactly the object p points to
+                    self.oblige('write', e, text_, True, '', how='the size is sizeof(*%s): the object the pointer stands for' % dd['name'])
+                else:
+                    self.check_write(st, e, args[di], n, text_)
                 reg = self.region_of(args[di], st)
                 st = self.kill_strlen_of_region(st, reg)
                 # facts about the destination after a terminating writer
